@@ -185,6 +185,13 @@ func (r *Reporter) Finish() int {
 		}
 		return r.unknown[i].Signature < r.unknown[j].Signature
 	})
+	if f := os.Getenv("LSMC_DUMP_SIGS"); f != "" {
+		var sb []byte
+		for _, v := range r.unknown {
+			sb = append(sb, (v.Signature + "\n")...)
+		}
+		os.WriteFile(f, sb, 0o644)
+	}
 	dir := filepath.Join(Root(), "replays", r.Property)
 	os.MkdirAll(dir, 0o755)
 	max := 10
